@@ -1313,7 +1313,9 @@ def _sl_set(ex, *a):
     def add(ex2, self, item):
         grows = ex2.fresh('set.grows', BoolSort())
         self.fields['size'] = self.fields['size'] + If(grows, 1, 0)
-    return Obj('set', {'size': IntVal(0)}, {'add': add, '__len__': lambda ex2, self: self.fields['size']}, name='componentTypes')
+        self.fields['adds'] = self.fields['adds'] + 1          # (ghost) how many elements' tags it has been shown
+    return Obj('set', {'size': IntVal(0), 'adds': IntVal(0)}, {'add': add, '__len__': lambda ex2, self: self.fields['size']},
+               name='componentTypes')
 
 
 def _sl_decode(ex, substrate, asn1Spec=None, **options):
@@ -1345,8 +1347,13 @@ def _sl_proto(kind):
         def clear(ex2, me):
             me.fields['cleared'] = True
             return me
+        # (ghost) what the guess had seen when this container was made: the number of elements recorded and of tags shown
+        seen = ex.env.get('components') if ex is not None and hasattr(ex, 'env') else None
+        types = ex.env.get('componentTypes') if ex is not None and hasattr(ex, 'env') else None
         return Obj('Asn1Value', {'kind': kind, 'stored': SeqV(z3.Empty(S), 'any'), 'positionsInOrder': z3.BoolVal(True),
-                                 'cleared': False, 'tagSetArg': kw.get('tagSet')},
+                                 'cleared': False, 'tagSetArg': kw.get('tagSet'),
+                                 'guessedAfter': Length(seen.fields['items'].z) if isinstance(seen, Obj) and 'items' in seen.fields else IntVal(-1),
+                                 'tagsSeen': types.fields['adds'] if isinstance(types, Obj) and 'adds' in types.fields else IntVal(-1)},
                    {'setComponentByPosition': set_pos, 'clear': clear}, name='asn1Object')
     return Obj('Asn1Type', {'tagSet': Obj('TagSet', {'baseTag': Obj('Tag', {}, name='baseTag')}, name='proto.tagSet')}, {'clone': clone},
                name='proto' + kind)
@@ -1389,8 +1396,11 @@ SCHEMALESS = Contract(
     calls={'decodeFun': _sl_decode},
     loops={0: Loop(invariant=['not value_yielded()', 'substrate.pos >= original_position',
                               'components.items == substrate.decoded', 'componentTypes.size >= 0',
-                              '(asn1Object is None) == (len(substrate.decoded) == 0)'],
-                   havoc_fields=['substrate.pos', 'substrate.decoded', 'components.items', 'componentTypes.size'],
+                              '(asn1Object is None) == (len(substrate.decoded) == 0)',
+                              'componentTypes.adds == len(substrate.decoded)',
+                              '(asn1Object is not None) ==> (asn1Object.guessedAfter == len(substrate.decoded) and '
+                              'asn1Object.tagsSeen == len(substrate.decoded))'],
+                   havoc_fields=['substrate.pos', 'substrate.decoded', 'components.items', 'componentTypes.size', 'componentTypes.adds'],
                    decl={'asn1Object': PGuess(),
                          'protoComponent': Obj('Stale', {}, name='prototype-of-the-previous-iteration')}),
            2: Loop(index='k', invariant=['asn1Object.stored == X.sub(substrate.decoded, 0, k)', 'asn1Object.positionsInOrder'],
@@ -1398,7 +1408,10 @@ SCHEMALESS = Contract(
     yield_ensures=[
         # C16: never None, never a valueless placeholder: a container holding every decoded element, in wire order
         ('a-container-with-every-element-in-order', 'y is not None and y.stored == substrate.decoded and y.positionsInOrder'),
-        ('an-empty-container-is-a-value-too', 'len(substrate.decoded) == 0 ==> y.cleared')],
+        ('an-empty-container-is-a-value-too', 'len(substrate.decoded) == 0 ==> y.cleared'),
+        # SEQUENCE or SEQUENCE OF is guessed from the tags of *all* the elements: the container handed out was made after the
+        # last element had been recorded and its tag shown to the set the guess counts
+        ('guessed-from-every-element', 'y.guessedAfter == len(substrate.decoded) and y.tagsSeen == len(substrate.decoded)')],
     exit_ensures=[('one-result', 'nyields() == 1')],
     may_raise={'PyAsn1Error': True},
     note='decodeFun and the prototypes\' clone/setComponentByPosition are assumed models; which prototype is guessed (one kind '
